@@ -661,6 +661,12 @@ func (f filtered) Violate(v hx.Violation) {
 	}
 }
 
+// hostViewDiffers: does the program call the caller-aware host functions at all, and do the observations differ?
+// (the logs of peek / hgrow are part of every instance's log region)
+func hostViewDiffers(p *Program, got, want observation) bool {
+	return (p.has("peek") || p.has("hgrow")) && got.guest() != want.guest()
+}
+
 func main() {
 	flag.Parse()
 	orc := hx.StartOracle()
@@ -732,6 +738,21 @@ func main() {
 					rep.Violate(hx.Violation{Kind: "impl-violation", Signature: sig,
 						What:  fmt.Sprintf("program %d (%s) on %s with listeners=%s: observations differ from the reference evaluation of the program", p.ID, p.Note, engine, lc.name),
 						Input: map[string]any{"program": p, "engine": engine, "listeners": lc.name}, Expected: want.guest(), Actual: got.guest()})
+					// C03's part of it: two or more valid, accepted modules whose run ends in a failure INSIDE the runtime (a Go
+					// runtime error recovered by the engine) where the reference evaluation has a result or an ordinary trap
+					if g := got.guest(); strings.Contains(g, "runtime error") && !strings.Contains(want.guest(), "runtime error") {
+						rep.Violate(hx.Violation{Kind: "impl-violation", Signature: "C03:accepted-modules-fail-inside-the-runtime:" + engine,
+							What:  fmt.Sprintf("program %d (%s) on %s with listeners=%s: valid, accepted modules linked together end in a Go runtime error inside the engine where the reference evaluation has a result or a trap", p.ID, p.Note, engine, lc.name),
+							Input: map[string]any{"program": p, "engine": engine, "listeners": lc.name}, Expected: want.guest(), Actual: g})
+					}
+					// C18's part of it: a module-aware HOST function (as every WASI function is) was handed another instance than
+					// its caller: what it reads and changes (the caller's memory here; clocks, random source, descriptor table
+					// for WASI) then belongs to another guest of the process
+					if hostViewDiffers(p, got, want) {
+						rep.Violate(hx.Violation{Kind: "impl-violation", Signature: "C18:host-function-serves-another-instance:" + engine,
+							What:  fmt.Sprintf("program %d (%s) on %s with listeners=%s: a host function that acts on ITS CALLER (reads the caller's memory / grows it) acted on another instance: a WASI function in its place would have used that instance's system context", p.ID, p.Note, engine, lc.name),
+							Input: map[string]any{"program": p, "engine": engine, "listeners": lc.name}, Expected: want.guest(), Actual: got.guest()})
+					}
 					if got.MSize != want.MSize || got.APISz != want.APISz {
 						// C14's part of it: memory.grow / memory.size / api.Memory.Size of each instance's OWN memory
 						rep.Violate(hx.Violation{Kind: "impl-violation", Signature: "C14:memory-size-of-the-wrong-instance:" + engine,
